@@ -61,6 +61,7 @@ type session struct {
 type sessionUplinkGeneric struct {
 	csid          uint64
 	clientName    string
+	state         *atomic.Pointer[net.UDPConn]
 	natConn       *net.UDPConn
 	natConnSendCh <-chan *sessionQueuedPacket
 	natConnPacker zerocopy.ClientPacker
@@ -436,6 +437,7 @@ func (s *UDPSessionRelay) recvFromServerConnGeneric(ctx context.Context, lnc *ud
 					s.relayServerConnToNatConnGeneric(ctx, sessionUplinkGeneric{
 						csid:          csid,
 						clientName:    clientInfo.Name,
+						state:         &entry.state,
 						natConn:       natConn,
 						natConnSendCh: natConnSendCh,
 						natConnPacker: clientSession.Packer,
@@ -547,6 +549,13 @@ func (s *UDPSessionRelay) relayServerConnToNatConnGeneric(ctx context.Context, u
 				zap.Duration("natTimeout", uplink.natTimeout),
 				zap.Error(err),
 			)
+		}
+
+		// Stop swaps the session state before it forces natConn's read deadline into the past.
+		// If that happened while we were sending, the deadline set above has overwritten Stop's,
+		// and the downlink goroutine would sleep for a whole NAT timeout. Re-check and force it again.
+		if uplink.state.Load() != uplink.natConn {
+			_ = uplink.natConn.SetReadDeadline(conn.ALongTimeAgo)
 		}
 
 		s.putQueuedPacket(queuedPacket)
